@@ -73,6 +73,7 @@ class Guards:
         self.pts = pts or effects.pts[fn.path]
         self.R = Resolver(fn, self.pts)
         self.edge_facts = {}  # (src, dst) -> set(facts)
+        self._two_variant_discr = False
         self._derive_edges()
         self._solve()
 
@@ -92,6 +93,7 @@ class Guards:
             raw = self.R.op(t["discr"])
             e = strip_bb(raw)
             vals = [v for v, _ in t["targets"]]
+            self._two_variant_discr = self._discr_of_two_variant(b, t)
             # history facts ('hist', 'ok'|'err', call bb): never killed — "this call site returned Ok/Err"
             hist_bb = None
             if raw[0] == "discr":
@@ -154,6 +156,9 @@ class Guards:
                     out.append(("variant", x, v))
                 else:
                     out.append(("notvariant", x, tuple(vals)))
+                    # in a two-variant enum "not variant v" is "variant 1 - v"
+                    if len(vals) == 1 and vals[0] in (0, 1) and self._two_variant_discr:
+                        out.append(("variant", x, 1 - vals[0]))
             return out
         # a switch on an integer value (match n { K => .., _ => .. }) is a comparison with K
         if self._is_int_expr(e):
@@ -173,6 +178,23 @@ class Guards:
             return out
         out.append(("bool", e, truth != neg))
         return out
+
+    def _discr_of_two_variant(self, b, t):
+        """the switch tests the discriminant of a whole local whose type has exactly two variants"""
+        if t["discr"].get("k") not in ("move", "copy") or t["discr"]["place"]["proj"]:
+            return False
+        dl = t["discr"]["place"]["local"]
+        for s in b["stmts"]:
+            if s["k"] == "assign" and s["place"]["local"] == dl and s["rv"]["k"] == "discr" and not s["rv"]["place"]["proj"]:
+                ty = self.fn.local_ty(s["rv"]["place"]["local"])
+                if ty.get("k") == "adt":
+                    a = ty.get("adt", "")
+                    if a.endswith(("option::Option", "result::Result", "ops::ControlFlow")):
+                        return True
+                    ad = self.fn.facts.adts.get(a)
+                    if ad is not None and len(ad.get("variants", [])) == 2:
+                        return True
+        return False
 
     def _is_int_expr(self, e):
         """value expression of integer (not bool) type, as far as it can be told from its leaves"""
